@@ -2,7 +2,7 @@ package main
 
 import (
 	"fmt"
-	"os/user"
+	"os"
 	"time"
 
 	"github.com/aquilax/hranoprovod-cli/cmd/hranoprovod-cli/v3/internal/balance"
@@ -110,9 +110,10 @@ func GetApp() *cli.App {
 }
 
 func getDefaultFileName(fillePath string) string {
-	usr, err := user.Current()
+	// $HOME, as documented (the password database knows another directory when HOME is redirected, and none at all for a uid without an entry)
+	home, err := os.UserHomeDir()
 	if err != nil {
 		return ""
 	}
-	return usr.HomeDir + fillePath
+	return home + fillePath
 }
